@@ -53,17 +53,25 @@ def indent(code, n=4):
 
 
 def build(alias: int, u0: int, u1: int, u2: int, wrap: int):
-    """alias: 0 none, 1 `g = f` after the open, 2 `f = g = open(..)`."""
-    if alias % 3 == 2:
+    """alias: 0 none, 1 `g = f` after the open, 2 `f = g = open(..)`, 3 none, but the handle is read through a lambda
+    that is defined BEFORE the open and called after it (a read from a nested scope that does not follow the
+    assignment)."""
+    alias = alias % 4
+    pre_reader = alias == 3
+    if pre_reader:
+        alias = 0
+    if alias == 2:
         head = "f = g = open('p')\n"
     else:
-        head = "f = open('p')\n" + ("g = f\n" if alias % 3 == 1 else "g = None\n")
+        head = ("rd = lambda: f.read()\n" if pre_reader else "") + "f = open('p')\n" + ("g = f\n" if alias == 1 else "g = None\n")
     body = head
     for u in (u0, u1, u2):
         line = sel(USES, u)
-        if "g.read" in line and alias % 3 == 0:
+        if "g.read" in line and alias == 0:
             line = "c = 2"
         body += line + "\n"
+    if pre_reader:
+        body += "e = rd()\n"
     init = "a = b = c = d = e = None\n"
     if wrap % 2 == 0:
         return init + body + "r = (a, b, c, d, e)\n"
@@ -85,5 +93,8 @@ def run(src):
     from tv import driver
 
     with NoTracing():
-        out, _ = driver.run_pipeline(_reg()["pixee:python/fix-file-resource-leak"], src)
+        try:
+            out, _ = driver.run_pipeline(_reg()["pixee:python/fix-file-resource-leak"], src)
+        except Exception:  # noqa  (the real pipeline reports the file as failed and leaves it alone)
+            out = src
         return observe(src), observe(out), out
